@@ -925,6 +925,8 @@ class EnumConverter(Converter[enum.Enum]):
 
     def try_convert(self, val: t.Any) -> enum.Enum:
         """See [`Converter.try_convert`][pane.converters.Converter.try_convert]"""
+        if isinstance(val, self.ty):
+            return val  # already a member
         val = self.inner_conv.try_convert(val)
         try:
             return self.val_map[val]
@@ -933,6 +935,8 @@ class EnumConverter(Converter[enum.Enum]):
 
     def collect_errors(self, val: t.Any) -> t.Optional[ErrorNode]:
         """See [`Converter.collect_errors`][pane.converters.Converter.collect_errors]"""
+        if isinstance(val, self.ty):
+            return None  # already a member
         try:
             val = self.inner_conv.try_convert(val)
         except ParseInterrupt:
